@@ -7,6 +7,7 @@
 package verif
 
 import (
+	"context"
 	"encoding/json"
 	"fmt"
 	"math"
@@ -138,6 +139,34 @@ func Finite(x float64) bool { return !math.IsNaN(x) && !math.IsInf(x, 0) }
 
 // Tiered returns q in the quick tier and t in the thorough tier (used for the sizes of constant lists).
 func Tiered(q, t int) int { return t }
+
+// SetNow sets the virtual clock of the executor (the next time.Now() is >= t).  No native effect.
+func SetNow(t int64) {}
+
+// Now returns the executor's current virtual clock reading (natively: the wall clock).
+func Now() int64 { return time.Now().UnixNano() }
+
+// ClockReading returns the i-th (1-based) time.Now() reading taken since the last SetNow.
+func ClockReading(i int) int64 { return 0 }
+
+// ClockReadings returns how many time.Now() readings were taken since the last SetNow.
+func ClockReadings() int { return 0 }
+
+// CancelCtx returns a context that is cancelled from a symbolic instant <name>.cancelAt on
+// (math.MaxInt64 = never).  Natively: cancelled immediately iff the replay value is <= 0.
+func CancelCtx(name string) context.Context {
+	at := int64(raw(name + ".cancelAt"))
+	ctx, cancel := context.WithCancel(context.Background())
+	if at <= 0 {
+		cancel()
+	}
+	_ = cancel
+	return ctx
+}
+
+// Offer tells the sequential executor that another party is ready on channel ch (a parked
+// receiver for sends, a sender of v for receives) under condition ready.  No native effect.
+func Offer(ch interface{}, ready bool, v interface{}) {}
 
 // Symbolic is true under the symbolic executor and false in native replay.
 func Symbolic() bool { return false }
